@@ -74,6 +74,9 @@ structure Seg.Inv (cfg : Cfg) (s : Seg) : Prop where
   accHdr : ∀ a, s.acc = some a → a.msgs ≠ [] →
     a.msgs.head?.map (·.off) = some a.base ∧ a.msgs.getLast?.map (·.off) = some a.cur ∧
     a.msgs.getLast?.map (·.ts) = some a.curTs
+  /-- `end_timestamp` bounds every message of the segment (`get_messages_by_timestamp` skips a
+  segment whose `end_timestamp` is below the wanted one) -/
+  endTs : ∀ m ∈ s.msgs, m.ts ≤ s.endTs
   closed : s.closed = true → s.acc = none ∧ s.endOff = s.cur ∧ cfg.segSize ≤ s.sizeBytes
   open_ : s.closed = false → s.sizeBytes < cfg.segSize ∨ s.accMsgs ≠ []
 
@@ -88,8 +91,11 @@ structure Part.Inv (cfg : Cfg) (p : Part) : Prop where
   chain : chain p.segs p.next
   sizes : ∀ m ∈ p.msgs, 0 < m.size
   ts : tsSorted p.msgs
-  /-- the in-memory cache is empty or a suffix of the retained messages that reaches the end -/
-  cache : ∀ c, p.cache = some c → c = [] ∨ (∃ pre, p.msgs = pre ++ c)
+  /-- the in-memory cache holds consecutive offsets that end at `next`, and agrees with the retained
+  messages: it is a suffix of them, or (after retention deleted segments whose messages are still
+  cached) they are a suffix of it -/
+  cache : ∀ c, p.cache = some c →
+    (c <:+ p.msgs ∨ p.msgs <:+ c) ∧ consecutiveFrom (p.next - c.length) c ∧ c.length ≤ p.next
   cacheCfg : p.cache.isSome = cfg.cacheOn
   dedupCfg : p.dedup.isSome = cfg.dedupOn
   dedupIds : ∀ ids, p.dedup = some ids → (∀ m ∈ p.msgs, m.id ∈ ids) ∧ (p.msgs.map (·.id)).Nodup
@@ -98,6 +104,8 @@ structure Part.Inv (cfg : Cfg) (p : Part) : Prop where
   cntSegs : p.cnt.segs = p.segs.length
   offsBound : (∀ e ∈ p.consOffs, e.2 < p.next ∨ (e.2 = 0 ∧ p.next = 0)) ∧
               (∀ e ∈ p.grpOffs, e.2 < p.next ∨ (e.2 = 0 ∧ p.next = 0))
+  /-- `current_offset` of a partition that never accepted a message is 0 -/
+  curZero : p.shouldInc = false → p.cur = 0
   segSize : 0 < cfg.segSize
 
 end Iggy.Log
